@@ -239,6 +239,8 @@ def compare_and_judge(ctx, rep, cases, impl, model, stream, nontrivial_rule, kno
                 rep.count("racing-op:" + op[0])
         if flags.get("mid_install"):
             rep.count("mid-install-observed")
+        if 996 in (im.get("yields") or []):
+            rep.count("slept-on-a-lock (oracle only)")
     if model is not None:
         rep.tie("correspondence:" + stream, not disagree, "%d of %d cases disagree" % (len(disagree), len(cases)), disagree[:1] or None)
     return disagree
